@@ -64,6 +64,29 @@ func init() {
 		}
 		var buf *tak.Position
 		b := -1
+		if len(a) > 3 && a[3] == "nil" {
+			// MovePreallocated with a nil buffer (documented to allocate); without the 4th argument: Position.Move
+			n, err := st.objs[src].MovePreallocated(m, nil)
+			if err != nil {
+				st.objs[d] = nil
+				st.live[d] = false
+				return "err"
+			}
+			st.objs[d] = n
+			st.live[d] = true
+			return "ok"
+		}
+		if len(a) <= 3 {
+			n, err := st.objs[src].Move(m)
+			if err != nil {
+				st.objs[d] = nil
+				st.live[d] = false
+				return "err"
+			}
+			st.objs[d] = n
+			st.live[d] = true
+			return "ok"
+		}
 		if len(a) > 3 {
 			b = atoi(a[3])
 			buf = st.objs[b]
@@ -210,6 +233,69 @@ func dominoBoard(r *RNG, size int) *tak.Position {
 	return p
 }
 
+// errorThenCopy: a REJECTED move from `src` into fresh storage, then a copy of `src` (Clone, or a pass into a buffer), then
+// both the source and the copy move on into fresh storage, every live handle observed after each step.  Anything the
+// error path leaves behind in the source (recycled storage, half-written successors) is inherited by the copy here.
+func errorThenCopy(c *Ctx, st *allocState, src, nslots int) bool {
+	p := st.objs[src]
+	probe := decPos(encPos(p)) // legality is probed on an independent object so that the probe leaves no trace in `src`
+	var bad, good []tak.Move
+	for _, m := range probe.AllMoves(nil) {
+		if _, err := probe.Move(m); err != nil {
+			bad = append(bad, m)
+		} else {
+			good = append(good, m)
+		}
+	}
+	if len(good) < 2 {
+		return false
+	}
+	var slots []int
+	for i := 0; i < nslots; i++ {
+		if i != src {
+			slots = append(slots, i)
+		}
+	}
+	cp, a, b := slots[0], slots[1], slots[2]
+	observe := func() {
+		for i := 0; i < nslots; i++ {
+			if st.objs[i] != nil && st.live[i] {
+				c.Emit(fmt.Sprintf("h.obs %d", i))
+			}
+		}
+	}
+	var rej tak.Move
+	if len(bad) > 0 && c.R.Chance(3, 4) {
+		rej = bad[c.R.Intn(len(bad))]
+	} else {
+		rej = rawMove(c.R, p.Size())
+	}
+	for t := 1 + c.R.Intn(2); t > 0; t-- {
+		c.Emit(fmt.Sprintf("h.move %d %d %s", a, src, encMove(rej)))
+	}
+	if c.R.Chance(1, 2) {
+		c.Emit(fmt.Sprintf("h.clone %d %d", cp, src))
+	} else {
+		// a second failed attempt on the copy as well, sometimes
+		c.Emit(fmt.Sprintf("h.clone %d %d", cp, src))
+		c.Emit(fmt.Sprintf("h.move %d %d %s", b, cp, encMove(rej)))
+	}
+	observe()
+	m1 := good[c.R.Intn(len(good))]
+	m2 := good[c.R.Intn(len(good))]
+	first, second := src, cp
+	if c.R.Chance(1, 2) {
+		first, second = cp, src
+	}
+	c.Emit(fmt.Sprintf("h.move %d %d %s", a, first, encMove(m1)))
+	observe()
+	c.Emit(fmt.Sprintf("h.move %d %d %s", b, second, encMove(m2)))
+	observe()
+	c.Emit("h.sep")
+	c.Count("pattern.error-then-copy")
+	return true
+}
+
 func genC09(c *Ctx) {
 	n := c.Scale(1400, 200000)
 	const nslots = 6
@@ -257,6 +343,9 @@ func genC09(c *Ctx) {
 			src := live[c.R.Intn(len(live))]
 			dst := c.R.Intn(nslots)
 			x := c.R.Intn(100)
+			if c.R.Chance(1, 6) && errorThenCopy(c, st, src, nslots) {
+				continue
+			}
 			switch {
 			case x < 15:
 				if dst == src {
@@ -289,8 +378,8 @@ func genC09(c *Ctx) {
 						usebuf = true
 					}
 				}
-				if !usebuf && dst == src {
-					// overwriting the source's slot with a fresh result is fine (the old object stays untouched, just unreachable)
+				if !usebuf && c.R.Chance(1, 3) {
+					line += " nil"
 				}
 				out := c.Emit(line)
 				if usebuf {
